@@ -65,7 +65,7 @@ fn check_order(old: &[u32], new: &[u32], req: &[u32]) -> Result<(), String> {
 /// Boolean kinds: `tables` alive while reordering src -> request (-> back)
 fn suite_bool<K: BoolKind>(n: u32, src: &[u32], req: &[u32], tables: &[TT], threads: u32, mode: u8, rep: &mut Report) -> Result<(), String> {
     // mode: 0 = set_var_order_seq, 1 = set_var_order (sequential path unless huge), 2 = forced concurrent bubble sort
-    let mr = mk_manager::<K>(n, src, 1 << 15, 1 << 10, threads);
+    let mr = mk_manager::<K>(n, src, if n > 8 { 1 << 21 } else { 1 << 15 }, 1 << 10, threads);
     let vs = vars::<K>(&mr, n);
     let mut memo = HashMap::new();
     let fns: Vec<K::F> = tables.iter().map(|t| from_shannon::<K>(&mr, &vs, t, &mut memo)).collect();
@@ -116,7 +116,8 @@ fn suite_bool<K: BoolKind>(n: u32, src: &[u32], req: &[u32], tables: &[TT], thre
                 continue;
             }
             rep.evaluations += 1;
-            let r = from_minterms::<K>(&mr, &vs, t);
+            // (minterm sums over 9..10 variables are too slow for managers with several workers)
+            let r = if n > 8 { from_shannon::<K>(&mr, &vs, t, &mut HashMap::new()) } else { from_minterms::<K>(&mr, &vs, t) };
             if r != fns[i] {
                 let got = K::table(&r, n);
                 return Err(if got == *t { format!("noncanonical: rebuilding {t:?} after the reordering gives a handle != the preserved one") } else { format!("fresh-ops: rebuilding {t:?} after the reordering gives {got:?}") });
@@ -190,7 +191,7 @@ fn sample_tables(n: u32, k: usize, seed: u64) -> Vec<TT> {
     let mut s = seed;
     while v.len() < k {
         s = mix(s);
-        let w: Vec<u64> = (0..4).map(|i| mix(s ^ i)).collect();
+        let w: Vec<u64> = (0..if n > 8 { 16 } else { 4 }).map(|i| mix(s ^ i)).collect();
         v.push(crate::c02::tt_from_words(n, &w, (s >> 60) as u8));
     }
     v
@@ -236,7 +237,8 @@ fn job_conc<K: BoolKind>(seed: u64, cases: u32, rep: &mut Report) {
     let mut s = seed;
     for c in 0..cases {
         s = mix(s);
-        let n = 5 + (s % 4) as u32;
+        // 5..8 variables; every tenth case 9 or 10 (the largest the table model supports)
+        let n = if s % 10 == 0 { 9 + ((s >> 4) % 2) as u32 } else { 5 + ((s >> 4) % 4) as u32 };
         let mut src: Vec<u32> = (0..n).collect();
         let mut req: Vec<u32> = (0..n).collect();
         let mut r = s;
@@ -497,7 +499,7 @@ pub fn run(cfg: &Cfg) -> i32 {
         &total,
         Meta {
             level: "exploration",
-            rule: "n=3: every source permutation x every request (every ordered subset of the variables, incl. empty/singleton no-ops) with all 256 functions (MTBDD: 60-80 value tables, TDD: the 27 one-variable functions lifted to each variable + sampled tables) alive plus dead nodes; n=4: source permutations (all in thorough, a seeded third in quick) x all 65 requests with sampled functions; set_var_order_seq / set_var_order / set_var_order with the concurrent bubble sort forced through the oxidd_verif hook, threads 1 and 4. After each reordering: requested pairs in order, number of inversions old->new equals the brute-force minimum over all linear extensions of the request, every handle's table unchanged (independent interpreter), exact node counts vs reference canonical form, structure + reference-count audit, rebuilding every function yields the preserved handle (canonical, fresh-diagram behaviour), gc, reordering back to the source order and all checks again. Plus seeded random cases on 5..8 variables (random source order; request = reversal / rotation / random permutation / random partial request; 12 sampled functions alive) through the forced concurrent bubble sort with 2/3/4/8 workers, where several levels travel at the same time and follow each other (non-trivial: >= 3 swaps). Plus proptest histories over 5..8 variables with chains of reorderings mixed with operations and gc. Non-trivial = partial request leaving variables unnamed, or total request needing >= 2 swaps; histories with >= 2 effective reorderings.",
+            rule: "n=3: every source permutation x every request (every ordered subset of the variables, incl. empty/singleton no-ops) with all 256 functions (MTBDD: 60-80 value tables, TDD: the 27 one-variable functions lifted to each variable + sampled tables) alive plus dead nodes; n=4: source permutations (all in thorough, a seeded third in quick) x all 65 requests with sampled functions; set_var_order_seq / set_var_order / set_var_order with the concurrent bubble sort forced through the oxidd_verif hook, threads 1 and 4. After each reordering: requested pairs in order, number of inversions old->new equals the brute-force minimum over all linear extensions of the request, every handle's table unchanged (independent interpreter), exact node counts vs reference canonical form, structure + reference-count audit, rebuilding every function yields the preserved handle (canonical, fresh-diagram behaviour), gc, reordering back to the source order and all checks again. Plus seeded random cases on 5..10 variables (random source order; request = reversal / rotation / random permutation / random partial request; 12 sampled functions alive) through the forced concurrent bubble sort with 2/3/4/8 workers, where several levels travel at the same time and follow each other (non-trivial: >= 3 swaps). Plus proptest histories over 5..8 variables with chains of reorderings mixed with operations and gc. Non-trivial = partial request leaving variables unnamed, or total request needing >= 2 swaps; histories with >= 2 effective reorderings.",
             assumptions: vec!["concurrent bubble sort on small diagrams is reached through the cfg(oxidd_verif) hook VERIF_FORCE_CONCURRENT; honest >= 65536-node runs are not part of the quick tier".into(), "pointer backend through C20".into()],
             extra: json!({}),
         },
